@@ -18,3 +18,4 @@ func C_a_First_0() bool { r := a.First([]error{nil}); return r == nil }
 func C_a_Describe_0() bool { r := a.Describe(nil, false); return r == nil }
 func C_a_MultiTyped_0() bool { r := a.MultiTyped(); return r == nil }
 func C_a_ConvTIface_0() bool { r := a.ConvTIface(0); return r == nil }
+func C_a_Repair_0() bool { r := a.Repair(nil); return r == nil }
